@@ -155,6 +155,18 @@ def _always_returns(stmts) -> bool:
     return False
 
 
+def _own_calls(g):
+    """Call nodes of function g's own scope (nested defs are visited on their own)"""
+    stack = list(ast.iter_child_nodes(g))
+    while stack:
+        n = stack.pop()
+        if isinstance(n, (ast.FunctionDef, ast.AsyncFunctionDef, ast.Lambda, ast.ClassDef)):
+            continue
+        if isinstance(n, ast.Call):
+            yield n
+        stack.extend(ast.iter_child_nodes(n))
+
+
 def run(ctx, rep) -> None:
     prog, T = ctx.prog, ctx.st
     ALL = frozenset(T.members)
@@ -395,6 +407,33 @@ def run(ctx, rep) -> None:
             continue
         seen_c.add((f.qualname, n.lineno))
         rep.check(f.qualname in ("StartStageHandler.handle.on_stage", "StartStageHandler.handle"), "C03.R6", f"_start_if_ready called from {f.qualname}", "only from the readiness-guarded activation", f.file, n.lineno, disc=f"sir-caller:{f.qualname}")
+
+    # ---- R8: a stage blocked by a halted upstream never becomes continuable --------------------------------------------------
+    # SKIPPED is a continuable status: a stage that is marked SKIPPED releases its own downstream. StartStage may therefore
+    # push SkipStage only where readiness said READY (stage disabled by its own condition) - never in the SKIP phase, whose
+    # meaning is "an upstream halted": the blocked stage must stay NOT_STARTED so that everything behind it stays blocked too.
+    rep.rule("C03.R8", "StartStage constructs SkipStage / marks its stage SKIPPED only under readiness.phase == READY (inside _start_if_ready or under the READY test), never in the SKIP (upstream halted) phase")
+    n8 = 0
+    for f in prog.all_functions():
+        if not f.module.name.startswith("stabilize.handlers.start_stage"):
+            continue
+        for g in [f.node] + [x for x in ast.walk(f.node) if isinstance(x, (ast.FunctionDef, ast.AsyncFunctionDef)) and x is not f.node]:
+            for c in _own_calls(g):
+                is_skip_msg = isinstance(c.func, ast.Name) and c.func.id == "SkipStage"
+                is_skip_write = isinstance(c.func, ast.Attribute) and c.func.attr == "set_stage_status" and len(c.args) >= 2 and norm(c.args[1]) == "WorkflowStatus.SKIPPED"
+                if not (is_skip_msg or is_skip_write):
+                    continue
+                n8 += 1
+                inside_sir = f.qualname.startswith("StartStageHandler._start_if_ready") or g.name == "_start_if_ready"
+                doms = _doms(g, c)
+                under_ready = ("readiness.phase == PredicatePhase.READY", True) in doms
+                under_skip = ("readiness.phase == PredicatePhase.SKIP", True) in doms
+                ok = (inside_sir or under_ready) and not under_skip
+                what = "SkipStage pushed" if is_skip_msg else "stage marked SKIPPED"
+                rep.check(ok, "C03.R8", f"{f.qualname}: {what} only for a READY stage", "inside _start_if_ready (called under READY only, R6)" if inside_sir else f"dominating tests {[d for d in doms if 'readiness' in d[0]]}" + ("" if ok else
+                          ": in the SKIP phase an upstream has halted - turning the blocked stage SKIPPED (continuable) releases its downstream, which then runs although it is transitively behind a halted stage"),
+                          f.file, c.lineno, disc=f"skip-only-ready:{f.qualname}:{g.name}")
+    rep.floor("SkipStage / SKIPPED sites in start_stage", n8, 2)
 
     # ---- R7 paths ---------------------------------------------------------------------------------------------
     res = all_paths(ctx)
